@@ -198,7 +198,7 @@ def query(rng, depth):
 
 SPECIALS = list(':+-=><!(){}[]^"~*?\\/')
 WS = [" ", " ", " ", "  ", "\t", "\n", "\r", " \t "]
-PLAIN = list("abcxyz019_.@,;'%#&|$") + ["é", "日", "ab", "foo", "bar"]
+PLAIN = list("abcxyz019_.@,;'%#&|$") + ["é", "日", "ab", "foo", "bar", "\xa0", "\u3000", "—"]
 KEYWORDISH = ["AND", "OR", "NOT", "ANDROID", "ORange", "NOTE", "&&", "||", "TO", "UNICODE3000", "xUNICODE3000", "E",
               "inf", "nan", "_exists_", "_missing_", "_default_"]
 
@@ -351,6 +351,8 @@ def mutate_text(rng, q):
 
 # --- hazard analysis of a parsed tree (which recorded finding, if any, a round-trip failure belongs to) ---
 
+RUST_WS = set("\t\n\x0b\x0c\r \x85\xa0\u1680\u2000\u2001\u2002\u2003\u2004\u2005\u2006\u2007\u2008\u2009\u200a"
+              "\u2028\u2029\u202f\u205f\u3000")
 INVALID = set('"()[]{}+-!:~^?*\\>=<')
 WSCH = set(" \t\r\n")
 KW = ("AND", "OR", "NOT", "&&", "||", "-")
@@ -455,4 +457,6 @@ def tree_hazards(t, fl):
             cv_haz(n["hi"], True)
 
     go(t, True)
+    if t["k"] == "term" and t["attr"] == "_default_" and t["v"] != "" and all(c in RUST_WS for c in t["v"]):
+        hs.add("unicode-blank")
     return hs
